@@ -77,9 +77,19 @@ func (dropByName) ShouldSample(p sdktrace.SamplingParameters) sdktrace.SamplingR
 	if strings.HasPrefix(p.Name, "dropchild-") {
 		return sdktrace.SamplingResult{Decision: sdktrace.Drop}
 	}
+	if strings.HasPrefix(p.Name, "recordonly-") {
+		// recording but not sampled: processors still get OnStart/OnEnd for it, exactly once
+		return sdktrace.SamplingResult{Decision: sdktrace.RecordOnly}
+	}
 	return sdktrace.SamplingResult{Decision: sdktrace.RecordAndSample}
 }
 func (dropByName) Description() string { return "dropByName" }
+
+// panicErr is an error whose Error method panics (a typed nil pointer error is the everyday form of it). The
+// caller recovers; the span must stay usable.
+type panicErr struct{}
+
+func (*panicErr) Error() string { panic("Error() called on a broken error value") }
 
 var deadlocksSeen atomic.Int32
 
@@ -155,7 +165,12 @@ func runCase(k *vf.Case, traced bool) {
 	nShared := 1 + r.Intn(2)
 	var spans []shared
 	for i := 0; i < nShared; i++ {
-		ctx, sp := tr.Start(context.Background(), fmt.Sprintf("shared%d", i))
+		name := fmt.Sprintf("shared%d", i)
+		if r.Chance(1, 4) {
+			name = "recordonly-" + name
+			k.C.Count("record_only_shared_spans", 1)
+		}
+		ctx, sp := tr.Start(context.Background(), name)
 		spans = append(spans, shared{sp, ctx, sp.SpanContext().SpanID()})
 	}
 	G := vf.Pick(r, []int{2, 4, 8, 16})
@@ -242,7 +257,12 @@ func runCase(k *vf.Case, traced bool) {
 				case "SetName":
 					s.span.SetName(tag)
 				case "RecordError":
-					if gr.Bool() {
+					if gr.Chance(1, 6) {
+						func() {
+							defer func() { _ = recover() }()
+							s.span.RecordError(&panicErr{})
+						}()
+					} else if gr.Bool() {
 						// with a stack trace: other goroutines do the same on other spans at the same time
 						s.span.RecordError(errors.New(tag), trace.WithStackTrace(true))
 					} else {
